@@ -406,6 +406,20 @@ def zoo_configs():
             "Qbd": {"J": 1, "Par": 1, "m0": 1.4, "g0": 0.25},
         },
     }
+    z["interleave"] = {  # chains of two topologies declared INTERLEAVED (Ya, Yb, Ya', Yb'): get_chains_map groups the chains by
+        # topology, every per-chain list a strategy builds must still follow the chain order (seeded change C05-04)
+        "order": ["Gb", "Gc", "Gd"],
+        "decay": {"Ga": [["Ybc1", "Gd"], ["Ybd1", "Gc"], ["Ybc2", "Gd"], ["Ybd2", "Gc"]],
+                  "Ybc1": ["Gb", "Gc"], "Ybc2": ["Gb", "Gc"], "Ybd1": ["Gb", "Gd"], "Ybd2": ["Gb", "Gd"]},
+        "particle": {
+            "$top": {"Ga": {"J": 0, "P": -1, "mass": 3.0}},
+            "$finals": {"Gb": {"J": 0, "P": -1, "mass": 0.5}, "Gc": {"J": 0, "P": -1, "mass": 0.3}, "Gd": {"J": 0, "P": -1, "mass": 0.2}},
+            "Ybc1": {"J": 1, "Par": -1, "m0": 1.2, "g0": 0.2},
+            "Ybc2": {"J": 1, "Par": -1, "m0": 1.9, "g0": 0.15},
+            "Ybd1": {"J": 1, "Par": -1, "m0": 1.4, "g0": 0.25},
+            "Ybd2": {"J": 1, "Par": -1, "m0": 2.1, "g0": 0.1},
+        },
+    }
     return z
 
 
